@@ -5,7 +5,7 @@ CG = dict(units=["type.c"], mode="dfcc", cut=["error", "error_tok", "error_at", 
 META = dict(
     level="proof",
     claim="Statement lowering (real gen_stmt) and short-circuit/conditional lowering (real gen_expr), executed on the ghost x86 machine with abstract sub-statements: exactly the branch selected by the condition's value (of the condition's own type) is executed; for/do evaluate init, condition, body, increment in abstract-machine order, the back-edge returns to the loop head label, continue/break labels sit where C11 requires; &&, || and ?: evaluate their operands exactly when C11 says and in order; goto/label/case/return jump to / define the resolved labels. One symbolic pass per loop; iteration is by the loop-head invariant (machine balanced at the back-edge).",
-    note="Trusted: CBMC, ghost x86 machine. Not covered in this revision: the statement parser's break/continue/switch context save-restore, scope lookup, goto label resolution.",
+    note="Trusted: CBMC, ghost x86 machine. Also: switch dispatch compares at the width of the controlling type incl. case ranges (32/64-bit); find_var/find_typedef/find_tag return the innermost binding over 3 nested scopes; resolve_goto_labels binds each goto to the label with exactly its name (bounded lists). Not covered: the statement parser's break/continue/switch context save-restore, computed-goto targets' validity.",
     functions=["codegen.c:gen_stmt", "codegen.c:gen_expr", "codegen.c:cmp_zero", "codegen.c:count", "parse.c:find_var", "parse.c:find_tag", "parse.c:find_typedef", "parse.c:resolve_goto_labels"],
     trusted_base=["CBMC 6.11", "spec/x86_ghost.h"],
     assumptions=["sub-statements and sub-expressions are abstract nodes satisfying the gen_stmt/gen_expr contracts"],
